@@ -373,9 +373,27 @@ def r05_7(run, model):
         raise AnalysisIncomplete("resolve_expr: ELet arm not found")
 
 
+def r05_8(run, model):
+    run.rule("R05.8", "a parameter slot keeps the id minted for it: the functions that introduce parameters (resolve_fn, resolve_closure_param) "
+                      "never obtain a slot's id by looking the parameter's name up again - a lookup returns the newest binding, so all slots "
+                      "of a repeated name would share one local")
+    NR = "crates/compiler/src/typer/name_resolution.rs"
+    n = 0
+    for name in ("resolve_fn", "resolve_closure_param"):
+        f = model.fn(name, NR)
+        n += 1
+        looks = [c for c in S.walk(f.body) if c["k"] == "MethodCall" and c["method"] in ("rfind", "find", "get", "lookup", "resolve") and S.is_path(c["recv"], "env")]
+        run.ob("R05.8", f"{name}|parameter slots use the ids minted for them", not looks, site(NR, (looks or [f.node])[0]["sp"]),
+               f"lookups of a binder name in the environment while the parameter list is built: {[S.norm_ws(run.facts.text(NR, c['sp']))[:40] for c in looks]}",
+               witness="fn first(x: int32, x: string) -> string { x }: both slots get the id of the second x; the Go signature is "
+                       "`func first(x__1 int32, x__1 string)` (duplicate argument)")
+    run.floor("functions introducing parameters examined", n, 2)
+
+
 def run(run, model):
     run.try_rule(r05_7, model)
     run.try_rule(r05_6, model)
+    run.try_rule(r05_8, model)
     run.try_rule(r05_5, model)
     run.try_rule(r05_1, model)
     run.try_rule(r05_2, model)
